@@ -4,6 +4,7 @@ import numpy as np
 from mc import lattice, oracles as O, pairs
 from mc.common import TOL, U
 from mc.runner import Result
+from mc.measures import bivariate_forms
 
 ID = "C02"
 LEVEL = "model_checking"
@@ -85,6 +86,24 @@ def evaluate(r, trains, edges, mrts, ri, be, rank=()):
                     rank)
         return
     r.outcomes.add(tuple(round(v, 9) for v in f1 + f2))
+    # the same bivariate profile through the list and `indices` call forms
+    try:
+        for fname, q in bivariate_forms(spk.spike_profile, st1, st2, edges, MRTS=mrts, RI=ri):
+            ok = list(np.asarray(q.x, float)) != xf or len(q.y1) != len(f1) or \
+                not all(abs(a - b) <= TOL for a, b in zip(np.asarray(q.y1, float), f1)) or \
+                not all(abs(a - b) <= TOL for a, b in zip(np.asarray(q.y2, float), f2))
+            if ok:
+                r.violation(ID, "spike_profile.form", be, "spike_profile.form/%s/%s" % (be, cls),
+                            dict(case, form=fname), {"x": xf, "y1": f1, "y2": f2},
+                            {"x": q.x, "y1": q.y1, "y2": q.y2},
+                            "the profile of the two trains obtained through call form %s differs "
+                            "from the definition" % fname, rank)
+                return
+    except Exception as e:
+        r.violation(ID, "spike_profile.form", be, "spike_profile.form.exception/%s/%s" % (be, cls),
+                    case, "a profile", "%s: %s" % (type(e).__name__, e),
+                    "a list / indices call form raised", rank)
+        return
     # 0 at every instant where both trains spike together (incl. the edges)
     shared = set(trains[0]) & set(trains[1])
     for kx, t in enumerate(x):
